@@ -338,6 +338,44 @@ def Payload.raw : Payload → Raw
   | .junk .noType => { connId := some none, sql := some .select }
   | .junk .unknownType => { type := some .other }
 
+/-! ### an answer as the CLIENT sees it (vocabulary of the translated `DatabaseClient`, Gen/DatabaseClientTr.lean) -/
+
+inductive AType | connectResponse | sql | disconnect | other
+deriving DecidableEq, Repr
+
+/-- what `DatabaseClient.receive` looks at -/
+structure Ans where
+  isDict : Bool := true
+  /-- `payload.get("type")` when truthy -/
+  type : Option AType := none
+  /-- `payload["response"] is True` -/
+  response : Bool := false
+  /-- `payload["connection_id"]` -/
+  connId : Option Nat := none
+  /-- `payload.get("status_code")` -/
+  status : Nat := 0
+  /-- `payload.get("uuid")` is the id of the query that is waiting -/
+  uuid : Bool := false
+deriving DecidableEq, Repr
+
+/-- what the answer handler leaves behind for the call that is waiting: `_client_connection_requests[request_id]` (a connection
+object with this id), `_query_success_tracker[query_id]`, a server-side disconnect command -/
+structure Inbox where
+  created : Option Nat := none
+  tracked : Option Bool := none
+  dropped : Option Nat := none
+deriving DecidableEq, Repr
+
+/-- the answer the database service sends to a connect request: `{"status_code", "type": "connect_response", "response":
+status_code == 200, "connection_id"}` -/
+def connectAnswer (a : Nat × Option Nat) : Ans :=
+  { type := some .connectResponse, response := a.1 == 200, connId := a.2, status := a.1 }
+
+/-- the answer to a query: only a 200 answer carries the query's uuid (`C17_tr_process_sql`); a 401 / 500 from branches without
+`"type"` is ignored by the client altogether - either way no success is recorded for the waiting query -/
+def sqlAnswer (a : Nat × Option Nat) : Ans :=
+  { type := some .sql, status := a.1, uuid := a.1 == 200 }
+
 /-! ### backup and restore (database_service.py + the FTP pair) -/
 
 def Backup.serves (b : Backup) : Bool := b.node.isOn && b.ftps == .running
